@@ -348,6 +348,9 @@ def norm_call(res_inst, res, args, fn=None):
             return args[0][4][0]
         if args[0][0] == "enumc" and args[0][2] == "None":
             return args[1]
+        if args[0][0] == "var":
+            # a value the flow-insensitive view does not know (several definitions), with a default: still not known
+            return args[0]
     if _TRY_BRANCH.match(p):
         # `x?` on an Option is a match on x: Continue(v) is Some(v), Break is None (see Evaluator for the renaming)
         if p.startswith("<std::option::Option<"):
